@@ -4,7 +4,7 @@ CONFIG = {
     "streams": [{
         "name": "schema.loop", "harness": "schemah", "driver": "drv_schema",
         "env": {"SCHEMAH_STREAM": "loop"},
-        "n": {"quick": 2400, "thorough": 40000, "search": 4000},
+        "n": {"quick": 8000, "thorough": 80000, "search": 8000},
         "shards": {"quick": 8, "thorough": 16, "search": 8},
         "timeout_s": 1500,
         "rule": "descriptor sets from (a) /repo's own compiled protos (test.foo.v1, test.schema.v1, j5.schema.v1, j5.client.v1, "
